@@ -41,6 +41,9 @@ pub struct SchedState {
     /// after stabilisation: dissemination traffic to this validator takes the full delta, everything else
     /// at most an eighth of it (one consistently slow, but timely, correct node)
     pub slow_diss: Option<usize>,
+    /// before stabilisation: dissemination traffic to these validators arrives this late (they time out and
+    /// skip while the others notarize: split votes that only the fallback mechanism resolves)
+    pub late_diss: Option<(BTreeSet<usize>, Duration)>,
 }
 
 #[derive(Clone, Debug)]
@@ -129,6 +132,12 @@ pub fn install_scheduler(cl: &Cluster, st: Arc<Mutex<SchedState>>) {
         // messages a node sends to itself are local
         if d.from.1 == d.to.1 {
             return vec![Duration::ZERO];
+        }
+        if let Some((set, late)) = &s.late_diss {
+            // (repair answers to them are late as well, otherwise they fetch the block from their peers in time)
+            if matches!(d.to.0, Ep::Diss | Ep::RepairReq) && set.contains(&d.to.1) {
+                return vec![*late];
+            }
         }
         let c = s.chaos.clone();
         if !c.partition.is_empty() && d.t < c.heal && (c.partition.contains(&d.from.1) != c.partition.contains(&d.to.1)) {
